@@ -178,7 +178,50 @@ def tlc_simulate(family, module, cfg, num, depth, env, timeout=1800, tag=None):
     return cases, dict(wall=wall)
 
 
+CHUNK_BYTES = 24 * 1024 * 1024
+
+
 def tlc_trace(family, module, cfg, trace, timeout=3600, tag=None, heap="4g", defines=None):
+    """Validate a recorded ndjson trace; large traces are split (at run boundaries when the trace has `reset` events,
+    at event boundaries otherwise - events of such traces are judged independently) and validated by up to 3 JVMs."""
+    size = os.path.getsize(trace)
+    if size <= CHUNK_BYTES:
+        return _tlc_trace_one(family, module, cfg, trace, timeout, tag, heap, defines)
+    parts, cur, cur_bytes = [], [], 0
+    has_reset = False
+    with open(trace) as f:
+        for line in f:
+            is_reset = line.startswith('{"ev":"reset"') or '"ev":"reset"' in line[:200]
+            has_reset = has_reset or is_reset
+            if cur and cur_bytes >= CHUNK_BYTES and (is_reset or not has_reset):
+                parts.append(cur)
+                cur, cur_bytes = [], 0
+            cur.append(line)
+            cur_bytes += len(line)
+    if cur:
+        parts.append(cur)
+    paths = []
+    for i, lines in enumerate(parts):
+        pth = f"{trace}.part{i}"
+        with open(pth, "w") as f:
+            f.writelines(lines)
+        paths.append(pth)
+    import concurrent.futures
+    out = dict(fail=[], modeldiff=[], info=[], states=0, wall=0.0, out="")
+    with concurrent.futures.ThreadPoolExecutor(max_workers=3) as ex:
+        futs = [ex.submit(_tlc_trace_one, family, module, cfg, pth, timeout, f"{tag or family}-p{i}", heap, defines) for i, pth in enumerate(paths)]
+        for fu in futs:
+            r = fu.result()
+            for k in ("fail", "modeldiff", "info"):
+                out[k] += r[k]
+            out["states"] += r["states"]
+            out["wall"] += r["wall"]
+    for pth in paths:
+        os.remove(pth)
+    return out
+
+
+def _tlc_trace_one(family, module, cfg, trace, timeout=3600, tag=None, heap="4g", defines=None):
     """Validate a recorded ndjson trace.  Returns dict(fail, modeldiff, info, consumed, states)."""
     env = {"TRACE": trace,
            "JAVA_TOOL_OPTIONS": "-Xss1g -Dtlc2.tool.queue.IStateQueue=StateDeque"}
